@@ -10,6 +10,8 @@
 (*   Reply code i                 reply put on the wire                    *)
 (*   End   open all ip source     session over: open deliveries, permits   *)
 (*   Crash                        the server process died                  *)
+(*   Env   k res                  an event of the environment at the limits *)
+(*                                group (wait | storm | peer+ | peer-)      *)
 (*                                                                         *)
 (* Every line is consumed either by the matching action of Session.tla    *)
 (* with the logged arguments (conformance), or - when no design action    *)
@@ -82,7 +84,9 @@ C_End == /\ IsEv("End") /\ PermitsMatch
 
 C_Crash == IsEv("Crash") /\ CrashStep
 
-Conform == C_Cmd \/ C_Reply \/ C_Tgt \/ C_End \/ C_Crash
+C_Env == IsEv("Env") /\ Ev.k \in EnvKinds /\ Ev.res = "ok" /\ EnvStep(Ev.k)
+
+Conform == C_Cmd \/ C_Reply \/ C_Tgt \/ C_End \/ C_Crash \/ C_Env
 
 C_Step ==
   /\ ~drift
@@ -97,6 +101,7 @@ ObsApply(o, e) ==
     [] e.e = "Tgt"   -> ObsTgt(o, e.tgt, e.op, e.r, e.res, e.st, e.ts)
     [] e.e = "End"   -> ObsEnd(o, e.open, e.all, e.ip, e.source)
     [] e.e = "Crash" -> ObsCrash(o)
+    [] e.e = "Env"   -> IF e.res = "ok" THEN ObsEnv(o, e.k) ELSE o
     [] OTHER -> o
 
 M_Step ==
